@@ -1444,3 +1444,18 @@ package analysis
 //@   ensures result != nil && fresh(result)
 //@   ensures noOp(s, method, path) ==> len(result) == 0
 //@   ensures !noOp(s, method, path) ==> forall k in dom(result) :: fromLists(s, docPaths(s)[path].Parameters, opAtM(docPaths(s)[path], strings.ToUpper(method)).Parameters, k, result[k])
+
+//@ fun idUnknown(s *Spec, id string) bool = forall p in dom(docPaths(s)) :: forall M string :: opAtM(docPaths(s)[p], M) != nil ==> opAtM(docPaths(s)[p], M).ID != id
+
+//@ func (s *Spec) SafeParametersFor(operationID, callmeOnError)
+//@   requires s != nil && s.spec != nil
+//@   modifies nothing
+//@   panics when callmeOnError == nil
+//@   ensures idUnknown(s, operationID) ==> len(result) == 0
+//@   ensures forall i in 0..len(result) :: exists p in dom(docPaths(s)) :: exists M string :: opAtM(docPaths(s)[p], M) != nil && opAtM(docPaths(s)[p], M).ID == operationID && (exists k string :: fromLists(s, docPaths(s)[p].Parameters, opAtM(docPaths(s)[p], M).Parameters, k, result[i]))
+
+//@ func (s *Spec) ParametersFor(operationID)
+//@   requires s != nil && s.spec != nil
+//@   modifies nothing
+//@   maypanic
+//@   ensures idUnknown(s, operationID) ==> len(result) == 0
